@@ -9,6 +9,7 @@ import (
 	"flag"
 	"fmt"
 	"os"
+	"strings"
 
 	"gmsverif/lib/eng"
 	"gmsverif/lib/sqlast"
@@ -16,19 +17,34 @@ import (
 	"gmsverif/lib/vio"
 )
 
+type multiEvent struct {
+	Ev      string        `json:"ev"`
+	ID      int           `json:"id"`
+	Q       *sqlast.Query `json:"q"`
+	Ress    []*eng.Result `json:"ress"`
+	SQLs    []string      `json:"sqls"`
+	Labels  []string      `json:"labels"`
+	Plans   []string      `json:"plans"`
+	Tags    []string      `json:"tags"`
+	CSeed   uint64        `json:"cseed"`
+	NRandom int           `json:"nrandom"`
+}
+
 type event struct {
-	Ev     string             `json:"ev"`
-	DB     map[string]any     `json:"db,omitempty"`
-	Schema []*sqlgen.TableDef `json:"schema,omitempty"`
-	ID     int                `json:"id,omitempty"`
-	Q      *sqlast.Query      `json:"q,omitempty"`
-	Res    *eng.Result        `json:"res,omitempty"`
-	SQL    string             `json:"sql,omitempty"`
-	Tags   []string           `json:"tags,omitempty"`
-	Qs     []*sqlast.Query    `json:"qs,omitempty"`
-	Ress   []*eng.Result      `json:"ress,omitempty"`
-	SQLs   []string           `json:"sqls,omitempty"`
-	Note   string             `json:"note,omitempty"`
+	Ev      string             `json:"ev"`
+	DB      map[string]any     `json:"db,omitempty"`
+	Schema  []*sqlgen.TableDef `json:"schema,omitempty"`
+	ID      int                `json:"id,omitempty"`
+	Q       *sqlast.Query      `json:"q,omitempty"`
+	Res     *eng.Result        `json:"res,omitempty"`
+	SQL     string             `json:"sql,omitempty"`
+	Tags    []string           `json:"tags,omitempty"`
+	Qs      []*sqlast.Query    `json:"qs,omitempty"`
+	Ress    []*eng.Result      `json:"ress,omitempty"`
+	SQLs    []string           `json:"sqls,omitempty"`
+	Note    string             `json:"note,omitempty"`
+	CSeed   uint64             `json:"cseed,omitempty"`
+	NRandom int                `json:"nrandom,omitempty"`
 }
 
 func setup(tabs []*sqlgen.TableDef) (*eng.DB, *eng.Session) {
@@ -87,8 +103,10 @@ func main() {
 	depth := flag.Int("depth", 2, "expression depth")
 	out := flag.String("out", "trace.ndjson", "")
 	in := flag.String("in", "", "cases to execute (mode exec): db events with schema, q events without res")
-	only := flag.Int("only", -1, "run only the case with this id (isolation re-run)")
+	onlyS := flag.String("only", "", "run only the cases with these ids, comma separated (isolation re-run)")
+	variants := flag.Int("variants", 4, "random costers per query (mode c01)")
 	flag.Parse()
+	only := parseOnly(*onlyS)
 	w, err := vio.NewWriter(*out)
 	if err != nil {
 		vio.Fatal("%v", err)
@@ -96,9 +114,11 @@ func main() {
 	r := &runner{w: w, rep: &vio.Report{Extra: map[string]interface{}{}}, kinds: map[string]int{}}
 	switch *mode {
 	case "c02":
-		r.genC02(*seed, *ndb, *nq, *depth, *only)
+		r.genC02(*seed, *ndb, *nq, *depth, only)
 	case "exec":
-		r.exec(*in, *only)
+		r.exec(*in, only)
+	case "c01":
+		r.genC01(*seed, *ndb, *nq, *depth, only, *variants)
 	default:
 		vio.Fatal("unknown mode %s", *mode)
 	}
@@ -108,7 +128,7 @@ func main() {
 	r.rep.Emit()
 }
 
-func (r *runner) genC02(seed int64, ndb, nq, depth, only int) {
+func (r *runner) genC02(seed int64, ndb, nq, depth int, only onlySet) {
 	id := 0
 	for d := 0; d < ndb; d++ {
 		// every database is generated from its own seed so that one case can be re-run in isolation
@@ -118,7 +138,7 @@ func (r *runner) genC02(seed int64, ndb, nq, depth, only int) {
 		for k := 0; k < nq; k++ {
 			id++
 			q := g.Query(depth)
-			if only >= 0 && id != only {
+			if only.skip(id) {
 				continue
 			}
 			if s == nil {
@@ -131,8 +151,9 @@ func (r *runner) genC02(seed int64, ndb, nq, depth, only int) {
 }
 
 // exec runs given cases: `db` events (with schema) create a fresh engine, `q` events are executed.
-func (r *runner) exec(path string, only int) {
+func (r *runner) exec(path string, only onlySet) {
 	var s *eng.Session
+	var edb *eng.DB
 	var pending *event
 	err := vio.ReadNDJSON(path, func(i int, line []byte) error {
 		var e event
@@ -143,8 +164,8 @@ func (r *runner) exec(path string, only int) {
 		case "db":
 			pending = &e
 			s = nil
-		case "q":
-			if only >= 0 && e.ID != only {
+		case "q", "multi":
+			if only.skip(e.ID) {
 				return nil
 			}
 			if s == nil {
@@ -154,11 +175,15 @@ func (r *runner) exec(path string, only int) {
 				for _, t := range pending.Schema {
 					fixFrom(t)
 				}
-				_, s = setup(pending.Schema)
+				edb, s = setup(pending.Schema)
 				r.w.Write(dbEvent(pending.Schema))
 			}
 			fixWidths(e.Q, pending.Schema)
-			r.runQuery(s, e.ID, e.Q)
+			if e.Ev == "multi" {
+				r.runMulti(edb, s, e.ID, e.Q, e.NRandom, e.CSeed)
+			} else {
+				r.runQuery(s, e.ID, e.Q)
+			}
 		}
 		return nil
 	})
@@ -229,4 +254,23 @@ func fixWidths(q *sqlast.Query, tabs []*sqlgen.TableDef) {
 		fq(q.R)
 	}
 	fq(q)
+}
+
+// onlySet restricts a run to given case ids (nil = all).
+type onlySet map[int]bool
+
+func (o onlySet) skip(id int) bool { return o != nil && !o[id] }
+
+func parseOnly(s string) onlySet {
+	if s == "" {
+		return nil
+	}
+	o := onlySet{}
+	for _, p := range strings.Split(s, ",") {
+		var n int
+		if _, err := fmt.Sscan(p, &n); err == nil {
+			o[n] = true
+		}
+	}
+	return o
 }
